@@ -117,12 +117,21 @@ pub struct BbCase {
 	/// retry storms: (position, run length of badNonce answers)
 	pub storms: Vec<(Pos, usize)>,
 	pub long_polls: usize,
+	/// the CA forgets the account at the k-th newOrder (0: never): re-registration goes through the limiter too
+	#[serde(default)]
+	pub forget_at_order: usize,
 }
 
 fn bb_strategy() -> impl Strategy<Value = BbCase> {
 	let limit = prop_oneof![(4usize..=12, Just(1u64)), (8usize..=20, Just(2u64)), (12usize..=20, Just(3u64))];
 	let pos = proptest::sample::select(vec![Pos::NewOrder, Pos::Authz(0), Pos::Chall(0), Pos::Finalize, Pos::Cert]);
-	(proptest::collection::vec(limit, 1..=2), 1usize..=4, proptest::collection::vec((pos, 2usize..=9), 0..=2), 0usize..=4).prop_map(|(limits, n_certs, storms, long_polls)| BbCase { limits, n_certs, storms, long_polls })
+	let pos2 = pos.clone();
+	let broad = (proptest::collection::vec(limit, 1..=2), 1usize..=4, proptest::collection::vec((pos, 2usize..=9), 0..=2), 0usize..=4, prop_oneof![1 => Just(0usize), 1 => 1usize..=3]).prop_map(|(limits, n_certs, storms, long_polls, forget_at_order)| BbCase { limits, n_certs, storms, long_polls, forget_at_order });
+	// one request more than the limit allows is only visible when the limit is small: tight limits around the rarely taken paths
+	// (account forgotten by the CA and registered again, short retry storms)
+	let tight_limit = proptest::sample::select(vec![(1usize, 1u64), (2, 1), (3, 1), (2, 2), (3, 2)]);
+	let tight = (tight_limit, 1usize..=2, proptest::collection::vec((pos2, 2usize..=3), 0..=1), 0usize..=1, 0usize..=2).prop_map(|(l, n_certs, storms, long_polls, f)| BbCase { limits: vec![l], n_certs, storms, long_polls, forget_at_order: f.min(n_certs) });
+	prop_oneof![1 => broad, 1 => tight]
 }
 
 fn run_bb_once(case: &BbCase) -> Result<Result<Vec<String>, (String, String)>, String> {
@@ -131,7 +140,10 @@ fn run_bb_once(case: &BbCase) -> Result<Result<Vec<String>, (String, String)>, S
 	let lay = Layout::new(&dir);
 	let coll = HookCollector::start(&dir)?;
 	let map: Vec<_> = (0..case.n_certs).map(|i| (bb::ident_key(&[("dns".to_string(), format!("r{i}.c09.test"))]), format!("c{i}"))).collect();
-	let faults = case.storms.iter().map(|(p, k)| Fault { pos: p.clone(), nth: 1, repeat: *k, action: Action::Acme("badNonce".into()), cert: None }).collect();
+	let mut faults: Vec<Fault> = case.storms.iter().map(|(p, k)| Fault { pos: p.clone(), nth: 1, repeat: *k, action: Action::Acme("badNonce".into()), cert: None }).collect();
+	if case.forget_at_order > 0 && case.forget_at_order <= case.n_certs {
+		faults.insert(0, Fault { pos: Pos::NewOrder, nth: case.forget_at_order, repeat: 1, action: Action::ForgetAccount, cert: None });
+	}
 	let plan = CaPlan { faults, polls_authz: 1 + case.long_polls, polls_valid: 1 + case.long_polls, ..CaPlan::default() };
 	let ca = MockCa::start(plan, map)?;
 	let cfg = json!({
@@ -146,9 +158,11 @@ fn run_bb_once(case: &BbCase) -> Result<Result<Vec<String>, (String, String)>, S
 	});
 	let cfg_path = bb::write_config(&dir, "acmed.toml", &cfg);
 	let mut daemon = Daemon::spawn(&bb::daemon_opts(&acmed, &dir, &cfg_path, "run"))?;
-	coll.hold_when(Box::new(|r, _| bb::is_post(r)));
+	// a successful post-operation hook is held (that certificate is done); a failed one is let through so that the certificate is tried again
+	let done = |r: &crate::daemon::HookRecord| bb::is_post(r) && r.arg("is_success") == Some("true");
+	coll.hold_when(Box::new(move |r, _| done(r)));
 	let n = case.n_certs;
-	let ok = coll.wait_until(&|r| r.iter().filter(|x| bb::is_post(x)).count() >= n, Duration::from_secs(180), &mut || daemon.state() != ProcState::Alive);
+	let ok = coll.wait_until(&|r| r.iter().filter(|x| done(x)).count() >= n, Duration::from_secs(180), &mut || daemon.state() != ProcState::Alive);
 	let recs = coll.records();
 	let snap = ca.snapshot();
 	let tail = daemon.stderr_tail(12);
@@ -161,9 +175,12 @@ fn run_bb_once(case: &BbCase) -> Result<Result<Vec<String>, (String, String)>, S
 		return Ok(Err(("C09:daemon-died".into(), format!("{st:?}; {d}\n{tail}"))));
 	}
 	if !ok {
-		return Ok(Err(("C09:request-withheld".into(), format!("{} of {n} certificates finished within 180 s under limits that permit it; {d}\n{tail}", recs.iter().filter(|x| bb::is_post(x)).count()))));
+		return Ok(Err(("C09:request-withheld".into(), format!("{} of {n} certificates finished within 180 s under limits that permit it; {d}\n{tail}", recs.iter().filter(|x| done(x)).count()))));
 	}
-	if let Some(r) = recs.iter().find(|r| bb::is_post(r) && r.arg("is_success") != Some("true")) {
+	// when the CA forgets the account, orders of the other certificates that are in flight under the old account URL are refused: those
+	// attempts fail by the CA's doing and are repeated; any other failure is not expected here
+	let by_forgetting = |r: &crate::daemon::HookRecord| case.forget_at_order > 0 && r.arg("status").map(|s| s.contains("account forgotten") || s.contains("accountDoesNotExist")).unwrap_or(false);
+	if let Some(r) = recs.iter().find(|r| bb::is_post(r) && r.arg("is_success") != Some("true") && !by_forgetting(r)) {
 		return Ok(Err(("C09:issuance-failed".into(), format!("{:?}; {d}\n{tail}", r.arg("status")))));
 	}
 	let arr: Vec<u64> = snap.log.iter().map(|l| l.t_ns).collect();
@@ -200,7 +217,7 @@ fn exec_bb(case: &BbCase) -> Outcome {
 }
 
 pub fn run(ctx: &Ctx, rep: &mut Report) {
-	rep.rule = "pr: limit sets (1..3 limits, n in 1..20, period 1..10 s) and arrival patterns (burst after idle, steady, on/off) of 10..80 calls to the daemon's limiter in the probe, which reports the monotonic instant before each call and after each return. Sound bracket: for every limit (n,p) and i, return[i+n] - call[i] >= p. Bounded liveness: each return <= (earliest instant the limits permit given the earlier returns) + max(3 s, p_max). bb: 1..4 certificates on one rate-limited endpoint, badNonce retry storms and long polls (in-attempt waits are 0 under the feature, so the limiter is the only brake): arrival times of ALL requests at the CA satisfy arr[i+n]-arr[i] >= p - 250 ms and every issuance completes. A failing timing case is re-run twice before it counts. Non-trivial = the pattern demands more than n calls within p (pr) / some window was within 400 ms of the limit (bb).".into();
+	rep.rule = "pr: limit sets (1..3 limits, n in 1..20, period 1..10 s) and arrival patterns (burst after idle, steady, on/off) of 10..80 calls to the daemon's limiter in the probe, which reports the monotonic instant before each call and after each return. Sound bracket: for every limit (n,p) and i, return[i+n] - call[i] >= p. Bounded liveness: each return <= (earliest instant the limits permit given the earlier returns) + max(3 s, p_max). bb: 1..4 certificates on one rate-limited endpoint (half of the cases with a tight limit of 1..3 requests per 1..2 s, where a single unaccounted request shows), badNonce retry storms, long polls and the CA forgetting the account at the k-th newOrder (re-registration goes through the same limiter) (in-attempt waits are 0 under the feature, so the limiter is the only brake): arrival times of ALL requests at the CA satisfy arr[i+n]-arr[i] >= p - 250 ms and every issuance completes. A failing timing case is re-run twice before it counts. Non-trivial = the pattern demands more than n calls within p (pr) / some window was within 400 ms of the limit (bb).".into();
 	rep.assume("black-box bound has 250 ms slack for send latency; the tight bound is the in-crate one");
 	run_replays::<PrCase>(ctx, rep, "pr", &exec_pr);
 	run_replays::<BbCase>(ctx, rep, "bb", &exec_bb);
@@ -208,5 +225,5 @@ pub fn run(ctx: &Ctx, rep: &mut Report) {
 		return;
 	}
 	run_prop(ctx, rep, "pr", &pr_strategy(ctx.tier.pick(9.0, 25.0)), ctx.tier.pick(64, 600), 16, &exec_pr);
-	run_prop(ctx, rep, "bb", &bb_strategy(), ctx.tier.pick(8, 60), 4, &exec_bb);
+	run_prop(ctx, rep, "bb", &bb_strategy(), ctx.tier.pick(12, 80), 6, &exec_bb);
 }
